@@ -77,6 +77,11 @@ func shapes(s uint32, thorough bool) []shape {
 	}
 	add(prog.Op{Kind: "ckpt", Mode: "PASSIVE", Max: 1}, keep)
 	add(prog.Op{Kind: "recover"}, keep)
+	// a write to the log by a connection that does not hold the write lock: refused, and without any effect on the capture
+	add(prog.Op{Kind: "stray-wal", Mode: "header"}, keep)
+	if thorough {
+		add(prog.Op{Kind: "stray-wal", Mode: "frame"}, keep)
+	}
 	return out
 }
 
